@@ -165,6 +165,7 @@ package interp
 //@   site GLOB = call pattern.Glob
 //@   site SELF = call interp.(*field).unquote
 //@   ensures[C15 C16] paths-as-found-or-the-field-itself: (site(GLOB) && result == siteret(GLOB)) || (site(SELF) && len(result) == 1 && result[0] == siteret(SELF))
+//@   ensures[C15 C16] no-path-is-respelled: site(GLOB) && result == siteret(GLOB) ==> (forall j: 0 <= j && j < len(result) ==> result[j] == after(GLOB, siteret(GLOB)[j]))
 //@   requires f != nil
 
 // ---- field splitting (C14) ----
